@@ -651,6 +651,7 @@ func runCase(seed uint64, conc bool, sc *script) (string, bool, string, map[stri
 	var obs []*obsRec
 	crashed := map[int]bool{}
 	crashes, conflicts, steps, writes := 0, 0, 0, 0
+	prevDump := map[string]string{}
 	last := -1
 	scPos := 0
 	for {
@@ -766,16 +767,37 @@ func runCase(seed uint64, conc bool, sc *script) (string, bool, string, map[stri
 		if dec == mb.CrashBefore || dec == mb.CrashAfter {
 			startClient(id) // restart: the next operation of this client, if any
 		}
-		rec.snap = "None"
+		rec.snap = "noC"
 		if isWrite && done.Result == "ok" {
-			var fin []string
+			// difference between the IPAM contents of the real store before and after this access
+			cur := map[string]string{}
+			var order []string
 			for _, kv := range st.Dump() {
 				switch kv.Key.(type) {
 				case model.BlockKey, model.BlockAffinityKey, model.IPAMHandleKey:
-					fin = append(fin, fmt.Sprintf("(%s, %s)", pr.key(kv.Key), pr.value(kv.Value)))
+					k := pr.key(kv.Key)
+					cur[k] = pr.value(kv.Value)
+					order = append(order, k)
 				}
 			}
-			rec.snap = "(Some [" + strings.Join(fin, "; ") + "])"
+			var ch []string
+			for _, k := range order {
+				if pv, ok := prevDump[k]; !ok || pv != cur[k] {
+					ch = append(ch, fmt.Sprintf("(%s, sV %s)", k, cur[k]))
+				}
+			}
+			var gone []string
+			for k := range prevDump {
+				if _, ok := cur[k]; !ok {
+					gone = append(gone, k)
+				}
+			}
+			sort.Strings(gone)
+			for _, k := range gone {
+				ch = append(ch, fmt.Sprintf("(%s, noV)", k))
+			}
+			prevDump = cur
+			rec.snap = "(Some [" + strings.Join(ch, "; ") + "])"
 			writes++
 		}
 		for _, x := range clients[id].results[nres:] {
@@ -878,7 +900,24 @@ func runCase(seed uint64, conc bool, sc *script) (string, bool, string, map[stri
 		for _, d := range ob.done {
 			dn = append(dn, d.coq())
 		}
-		ol = append(ol, fmt.Sprintf("Build_obs %d%%nat %s %s %s %s %s %s [%s] %s", ob.client, fault, kind, key, lst, val, res, strings.Join(dn, "; "), ob.snap))
+		dns := "nR"
+		if len(dn) > 0 {
+			dns = "[" + strings.Join(dn, "; ") + "]"
+		}
+		switch {
+		case c.Op == "get" && c.Key != nil:
+			ol = append(ol, fmt.Sprintf("oG %d%%nat %s %s %s %s", ob.client, fault, pr.key(c.Key), res, dns))
+		case c.Op == "list" && lst != "None":
+			ol = append(ol, fmt.Sprintf("oL %d%%nat %s %s %s %s", ob.client, fault, strings.TrimSuffix(strings.TrimPrefix(lst, "(Some "), ")"), res, dns))
+		case c.Key != nil:
+			v := "noV"
+			if ob.val != "" {
+				v = "(sV " + ob.val + ")"
+			}
+			ol = append(ol, fmt.Sprintf("oW %d%%nat %s %s %s %s %s %s %s", ob.client, fault, kind, pr.key(c.Key), v, res, dns, ob.snap))
+		default:
+			ol = append(ol, fmt.Sprintf("Build_obs %d%%nat %s %s %s %s %s %s %s %s", ob.client, fault, kind, key, lst, val, res, dns, ob.snap))
+		}
 		if len(human) < 60 {
 			k := ""
 			if c.Key != nil {
